@@ -28,7 +28,7 @@ FILES = {
 def edit_prop_of(ev):
     """A rejected paragraph operation falsifies C05, a rejected field edit C04; a field edit after which the
     printed text no longer re-reads to the reported number of paragraphs is (also) a separation failure (C05)."""
-    if ev.get("op", "").endswith("_para"):
+    if ev.get("op", "").endswith("_para") or ev.get("op") == "wrap":
         return ["C05"]
     props = ["C04"]
     post = ev.get("post", {})
